@@ -347,5 +347,58 @@ func runC20(c *Ctx) {
 			c.Violate(fmt.Sprintf("macat %v was not rejected with an error (finished=%v err=%v)", tc.args, finished, err), map[string]interface{}{"args": tc.args})
 		}
 	}
+	// "conflicting … options are rejected": every ordered pair of payload options, whatever their values (an empty
+	// --data, an empty file), every pair of protocols, every pair of formats
+	cdir, _ := os.MkdirTemp("", "verif-c20c")
+	defer os.RemoveAll(cdir)
+	emptyF, fullF := filepath.Join(cdir, "empty"), filepath.Join(cdir, "full")
+	_ = os.WriteFile(emptyF, nil, 0o600)
+	_ = os.WriteFile(fullF, []byte("from-file"), 0o600)
+	payloads := [][]string{{"--data", ""}, {"--data", "x"}, {"-D", ""}, {"-D", "y"}, {"--file", emptyF}, {"--file", fullF}, {"-F", emptyF}, {"-F", fullF}}
+	conflict := func(kind string, k int, args []string) {
+		_, err, finished := macatRun(args...)
+		// rejected = refused while the options were being looked at; an error from dialing, binding, sending or
+		// receiving means the command was accepted and ran
+		obs := "accepted"
+		if finished && err != nil {
+			ran := false
+			for _, pre := range []string{"dial(", "bind(", "send:", "recv:"} {
+				if strings.HasPrefix(err.Error(), pre) {
+					ran = true
+				}
+			}
+			if !ran {
+				obs = "rejected"
+			}
+		}
+		class := fmt.Sprintf("conflict %s x%d", kind, k)
+		c.Class(class, true)
+		c.T.Line(class, fmt.Sprintf("mc.conflict %s %d", kind, k), obs)
+		if k >= 2 && obs != "rejected" {
+			c.Violate(fmt.Sprintf("macat %q: %d %s options were given and macat ran instead of rejecting them (finished=%v err=%v)", args, k, kind, finished, err), map[string]interface{}{"args": args})
+		}
+	}
+	for _, p1 := range payloads {
+		for _, p2 := range payloads {
+			args := append([]string{"--push", "--connect", x, "--send-timeout", "1"}, p1...)
+			conflict("payload", 2, append(args, p2...))
+		}
+	}
+	protos := []string{"--req", "--rep", "--push", "--pull", "--pub", "--sub", "--surveyor", "--respondent", "--bus", "--pair", "--star"}
+	for i, p1 := range protos {
+		for j, p2 := range protos {
+			if i != j && (i+j)%3 == 0 {
+				conflict("protocol", 2, []string{p1, p2, "--connect", x, "--data", "q", "--send-timeout", "1", "--recv-timeout", "1"})
+			}
+		}
+	}
+	formats := []string{"--raw", "--ascii", "--quoted", "--msgpack", "--format=raw", "--format=quoted"}
+	for i, f1 := range formats {
+		for j, f2 := range formats {
+			if i != j {
+				conflict("format", 2, []string{"--pull", "--connect", x, "--recv-timeout", "1", f1, f2})
+			}
+		}
+	}
 	_ = rp.Close()
 }
